@@ -43,7 +43,7 @@ func (f *Formatter) formatAclDeclaration(decl *ast.AclDeclaration) *Declaration 
 			if len(cidr.Mask.Leading) > 0 {
 				buf.WriteString(" ")
 			}
-			buf.WriteString(cidr.Mask.String())
+			buf.WriteString(f.inline(cidr.Mask.Meta, f.formatInteger(cidr.Mask)))
 		}
 		lines = append(lines, &DeclarationPropertyLine{
 			Leading:      f.formatComment(cidr.Leading, "\n", 1),
@@ -67,7 +67,7 @@ func (f *Formatter) formatAclDeclaration(decl *ast.AclDeclaration) *Declaration 
 	defer bufferPool.Put(buf)
 
 	buf.Reset()
-	buf.WriteString("acl " + decl.Name.String() + " {\n")
+	buf.WriteString("acl " + f.inline(decl.Name.Meta, decl.Name.Value) + " {\n")
 	buf.WriteString(group.String())
 	if len(decl.Infix) > 0 {
 		buf.WriteString(f.formatComment(decl.Infix, "\n", 1))
@@ -87,7 +87,7 @@ func (f *Formatter) formatBackendDeclaration(decl *ast.BackendDeclaration) *Decl
 	defer bufferPool.Put(buf)
 
 	buf.Reset()
-	buf.WriteString("backend " + decl.Name.String() + " {\n")
+	buf.WriteString("backend " + f.inline(decl.Name.Meta, decl.Name.Value) + " {\n")
 	buf.WriteString(f.formatBackendProperties(decl.Properties, 1))
 	if len(decl.Infix) > 0 {
 		buf.WriteString(f.formatComment(decl.Infix, "\n", 1))
@@ -121,7 +121,7 @@ func (f *Formatter) formatBackendProperties(props []*ast.BackendProperty, nestLe
 		line := &DeclarationPropertyLine{
 			Leading:  f.formatComment(prop.Leading, "\n", nestLevel),
 			Trailing: f.trailing(prop.Trailing),
-			Key:      f.indent(nestLevel) + "." + prop.Key.String(),
+			Key:      f.indent(nestLevel) + "." + f.inline(prop.Key.Meta, prop.Key.Value),
 			Operator: " = ",
 		}
 		if po, ok := prop.Value.(*ast.BackendProbeObject); ok {
@@ -199,7 +199,7 @@ func (f *Formatter) formatDirectorDeclaration(decl *ast.DirectorDeclaration) *De
 				if v := f.formatComment(v.Leading, " ", 0); v != "" {
 					line.Key += v
 				}
-				line.Key += fmt.Sprintf(".%s = %s; ", v.Key.String(), f.formatExpression(v.Value).String())
+				line.Key += fmt.Sprintf(".%s = %s; ", f.inline(v.Key.Meta, v.Key.Value), f.formatExpression(v.Value).String())
 			}
 			if len(t.Infix) > 0 {
 				line.Key += f.formatComment(t.Infix, " ", 0)
@@ -208,7 +208,7 @@ func (f *Formatter) formatDirectorDeclaration(decl *ast.DirectorDeclaration) *De
 			// Backend property is object, semicolon is not needed
 			line.isObject = true
 		case *ast.DirectorProperty:
-			line.Key += "." + t.Key.String()
+			line.Key += "." + f.inline(t.Key.Meta, t.Key.Value)
 			line.Operator = " = "
 			line.Value = f.formatExpression(t.Value).String()
 			line.EndCharacter = ";"
@@ -235,7 +235,7 @@ func (f *Formatter) formatDirectorDeclaration(decl *ast.DirectorDeclaration) *De
 	defer bufferPool.Put(buf)
 
 	buf.Reset()
-	buf.WriteString("director " + decl.Name.String() + " " + decl.DirectorType.String() + " {\n")
+	buf.WriteString("director " + f.inline(decl.Name.Meta, decl.Name.Value) + " " + f.inline(decl.DirectorType.Meta, decl.DirectorType.Value) + " {\n")
 	buf.WriteString(group.String())
 	if len(decl.Infix) > 0 {
 		buf.WriteString(f.formatComment(decl.Infix, "\n", 1))
@@ -255,9 +255,9 @@ func (f *Formatter) formatTableDeclaration(decl *ast.TableDeclaration) *Declarat
 	defer bufferPool.Put(buf)
 
 	buf.Reset()
-	buf.WriteString("table " + decl.Name.String())
+	buf.WriteString("table " + f.inline(decl.Name.Meta, decl.Name.Value))
 	if decl.ValueType != nil {
-		buf.WriteString(" " + decl.ValueType.String())
+		buf.WriteString(" " + f.inline(decl.ValueType.Meta, decl.ValueType.Value))
 	}
 	buf.WriteString(" {\n")
 	buf.WriteString(f.formatTableProperties(decl.Properties))
@@ -324,7 +324,7 @@ func (f *Formatter) formatPenaltyboxDeclaration(decl *ast.PenaltyboxDeclaration)
 	defer bufferPool.Put(buf)
 
 	buf.Reset()
-	buf.WriteString("penaltybox " + decl.Name.String())
+	buf.WriteString("penaltybox " + f.inline(decl.Name.Meta, decl.Name.Value))
 	buf.WriteString(" {")
 	// penaltybox does not have properties
 	if len(decl.Block.Infix) > 0 {
@@ -346,7 +346,7 @@ func (f *Formatter) formatRatecounterDeclaration(decl *ast.RatecounterDeclaratio
 	defer bufferPool.Put(buf)
 
 	buf.Reset()
-	buf.WriteString("ratecounter " + decl.Name.String())
+	buf.WriteString("ratecounter " + f.inline(decl.Name.Meta, decl.Name.Value))
 	buf.WriteString(" {")
 	// ratecounter does not have properties
 	if len(decl.Block.Infix) > 0 {
@@ -368,13 +368,13 @@ func (f *Formatter) formatSubroutineDeclaration(decl *ast.SubroutineDeclaration)
 	defer bufferPool.Put(buf)
 
 	buf.Reset()
-	buf.WriteString("sub " + decl.Name.String())
+	buf.WriteString("sub " + f.inline(decl.Name.Meta, decl.Name.Value))
 
 	// Format subroutine parameters if exists
 	if len(decl.Parameters) > 0 {
 		args := make([]string, len(decl.Parameters))
 		for i, param := range decl.Parameters {
-			args[i] = param.Type.String() + " " + param.Name.String()
+			args[i] = f.inline(param.Type.Meta, param.Type.Value) + " " + f.inline(param.Name.Meta, param.Name.Value)
 		}
 		buf.WriteString("(" + strings.Join(args, ", ") + ")")
 	}
@@ -383,7 +383,7 @@ func (f *Formatter) formatSubroutineDeclaration(decl *ast.SubroutineDeclaration)
 
 	// Functional Subroutine
 	if decl.ReturnType != nil {
-		buf.WriteString(decl.ReturnType.String() + " ")
+		buf.WriteString(f.inline(decl.ReturnType.Meta, decl.ReturnType.Value) + " ")
 		f.isFunctionalSubroutine = true // flag turns on
 		defer func() {
 			f.isFunctionalSubroutine = false
